@@ -250,3 +250,39 @@ func lastIndexByte(s string, c byte) int {
 	}
 	return -1
 }
+
+// Pending is a watched call that may still be running.
+type Pending struct {
+	done chan struct{}
+	res  Result
+	What string
+}
+
+// Go starts fn on its own goroutine; use Finished after synctest.Wait().
+func (r *Rig) Go(what string, fn func()) *Pending {
+	p := &Pending{done: make(chan struct{}), What: what}
+	go func() {
+		defer close(p.done)
+		defer func() {
+			if v := recover(); v != nil {
+				p.res.Panic = v
+				p.res.Stack = string(debug.Stack())
+			}
+		}()
+		fn()
+	}()
+	return p
+}
+
+// Finished reports whether the call has returned (or panicked).
+func (p *Pending) Finished() bool {
+	select {
+	case <-p.done:
+		return true
+	default:
+		return false
+	}
+}
+
+// Result is valid once Finished.
+func (p *Pending) Result() Result { return p.res }
